@@ -123,6 +123,14 @@ impl<'a, 'ast> Visit<'ast> for V<'a> {
                                 (format!("trait {}", tr.ident), f.sig.ident.to_string()),
                                 (format!("{} {}", norm(&f.sig), norm(b)), self.file.clone(), line),
                             );
+                            // header of a trait = its generics, supertraits and where-clause (C19 reads bounds off it)
+                            let header = format!(
+                                "trait {} : {} {}",
+                                norm(&tr.generics.params),
+                                norm(&tr.supertraits),
+                                tr.generics.where_clause.as_ref().map(norm).unwrap_or_default()
+                            );
+                            self.fns.hdr.insert((format!("trait {}", tr.ident), f.sig.ident.to_string()), header);
                         }
                     }
                 }
@@ -774,6 +782,12 @@ fn main() {
         ("withStream", "ActorBuilderWithChannel", "with_stream"),
         ("recreateFromDefault", "ActorBuilderWithChannel", "recreate_from_default"),
         ("builderOnStream", "BaseActorBuilder", "on_stream"), ("builderBoundedOnStream", "BaseActorBuilder", "bounded_on_stream"),
+        ("brokerTryPublish", "Broker", "try_publish"),
+        // `impl<T: ..> Addr<Broker<T>>` is keyed by the outer type; `Addr` has no other publish / subscribe / unsubscribe
+        ("brokerAddrPublish", "Addr", "publish"), ("brokerAddrSubscribe", "Addr", "subscribe"),
+        ("brokerAddrUnsubscribe", "Addr", "unsubscribe"),
+        ("spawnOnStream", "trait StreamSpawnable", "spawn_on_stream"),
+        ("spawnOwningOnStream", "trait StreamSpawnable", "spawn_owning_on_stream"),
     ];
     let mut bounds_lean = String::from("import Hannibal.Model.Types\n/- GENERATED by /verif/extract from /repo's working tree on every check run. Do not edit. -/\nnamespace Hannibal\n\ndef Bounds.current : ApiEntry → List Bound\n");
     for (name, ty, fnn) in &entry_fns {
@@ -795,8 +809,14 @@ fn main() {
             if text.contains("+ Default") || text.contains("A : Default") {
                 bs.push(".default");
             }
-            if text.contains("A : StreamHandler < S :: Item >") {
+            if text.contains("A : StreamHandler < S :: Item >")
+                || (h.starts_with("trait ") && (h.contains("+ StreamHandler < T :: Item >") || h.contains("Self : StreamHandler < T :: Item >")))
+            {
                 bs.push(".streamHandler");
+            }
+            // the broker's `Addr` methods must really sit on `Addr<Broker<T>>` (and not on a blanket `Addr<A>`)
+            if name.starts_with("brokerAddr") && !h.contains("Addr < Broker < T > >") {
+                bs.clear();
             }
             if h.contains("ActorBuilderWithChannel < A , P , NonRestartable >") {
                 bs.push(".nonRestartableState");
